@@ -9,6 +9,7 @@ package limit
 
 import (
 	"context"
+	"sync/atomic"
 	"time"
 
 	"github.com/zeromicro/go-zero/core/stores/redis"
@@ -313,4 +314,27 @@ func Verif_C03_TokenFaults() {
 	rt.Cover("afterdown")
 	rt.Assert(c03RescueCalls == 2 && got2 == c03RescueAnswer, "while marked down every answer is the private limiter's")
 	rt.Assert(rt.RedisScriptRuns() == calls, "a limiter marked down does not run the script until the monitor has seen the store alive")
+}
+
+//verif:entry tier=quick,thorough cover=recovered,lateFailure
+//verif:stub (*golang.org/x/time/rate.Limiter).AllowN c03AllowN
+//verif:doc TokenLimiter recovery under the scheduler (all interleavings, sleep-set reduced): an outage is noticed (monitor goroutine started), the store comes back, and a request that failed during the outage reaches startMonitor at an arbitrary later point (before, during or after the monitor's successful ping and its clean-up): once everything is quiescent the limiter is marked alive again - it is never left on its private bucket with no monitor running - and a following call runs the shared script.
+func Verif_C03_TokenRecovery() {
+	lim := NewTokenLimiter(1, 1, &redis.Redis{}, "tk")
+	now := time.Unix(100, 0)
+	rt.RedisFail(true)
+	lim.AllowN(now, 1)
+	rt.Assert(lim.redisAlive == 0 && lim.monitorStarted, "a store error marks the limiter down and starts the monitor")
+	go func() {
+		rt.Yield()
+		rt.Cover("lateFailure")
+		lim.startMonitor() // the tail of a reserveN whose script call failed during the outage
+	}()
+	rt.RedisFail(false)
+	rt.WaitIdle()
+	rt.Assert(atomic.LoadUint32(&lim.redisAlive) == 1, "after the store is back the limiter returns to the shared bucket: it is never left marked down with no monitor running")
+	rt.Cover("recovered")
+	runs := rt.RedisScriptRuns()
+	lim.AllowN(now, 1)
+	rt.Assert(rt.RedisScriptRuns() == runs+1, "a recovered limiter consults the store again")
 }
